@@ -258,25 +258,28 @@ Definition measure (s : state) : nat :=
 Inductive api :=
 | ApiCreateOffer | ApiCreateAnswer | ApiSetLocalDescription | ApiSetRemoteDescription
 | ApiAddTrack | ApiRemoveTrack | ApiAddTransceiverFromKind | ApiAddTransceiverFromTrack
-| ApiCreateDataChannel | ApiSetConfiguration.
+| ApiCreateDataChannel | ApiSetConfiguration | ApiAddICECandidate.
 
 Definition all_apis : list api :=
   [ApiCreateOffer; ApiCreateAnswer; ApiSetLocalDescription; ApiSetRemoteDescription;
    ApiAddTrack; ApiRemoveTrack; ApiAddTransceiverFromKind; ApiAddTransceiverFromTrack;
-   ApiCreateDataChannel; ApiSetConfiguration].
+   ApiCreateDataChannel; ApiSetConfiguration; ApiAddICECandidate].
 
 Inductive entry :=
 | InvalidStateClosed        (* &rtcerr.InvalidStateError{ErrConnectionClosed} *)
 | InvalidStateNoRemote      (* &rtcerr.InvalidStateError{ErrNoRemoteDescription} *)
 | Proceeds.                 (* the call goes on to its real work *)
 
-(* what the environment of the call looks like: only CreateAnswer tests
-   something before the closed flag (pc.RemoteDescription() == nil) *)
+(* what the environment of the call looks like: CreateAnswer tests
+   pc.RemoteDescription() == nil before the closed flag, AddICECandidate after it *)
 Definition api_entry (a : api) (closed has_remote : bool) : entry :=
   match a with
   | ApiCreateAnswer =>
       if negb has_remote then InvalidStateNoRemote
       else if closed then InvalidStateClosed else Proceeds
+  | ApiAddICECandidate =>
+      if closed then InvalidStateClosed
+      else if negb has_remote then InvalidStateNoRemote else Proceeds
   | _ => if closed then InvalidStateClosed else Proceeds
   end.
 
